@@ -463,6 +463,12 @@ def c05(run):
         res = lib.run_tlc("MC_C05", gen_cfg(c, maxlen=c[8] if q else c[9]), coverage=False)
         run.add_tlc("MC_C05(%s)" % name, res)
         lexh.replay(run, "C05", res.lines.get("BEH", []), run.seed, limit=None if q else 60000)
+    # ground truth for the generator's reading of the reference grammar: CMake's own argument boundaries
+    allb = []
+    for name in ("unquoted", "quoted", "bracket", "compound"):
+        c = C05_CONFIGS[name]
+        allb += lib.run_tlc("MC_C05", gen_cfg(c, maxlen=c[8] - 1), coverage=False).lines.get("BEH", [])
+    lexh.cmake_trace_check(run, allb, run.seed, limit=400 if q else 6000)
     full = ("IdentsS", "MixedArgs", "SepsComments", "Ends", "Gaps", 4, 4, 2, 60)
     res = lib.run_tlc("MC_C05", gen_cfg(full), simulate=25 if q else 600, depth=40, seed=run.seed, workers=8, coverage=False)
     run.add_tlc("MC_C05(simulate, files up to 60 symbols)", res)
